@@ -14,12 +14,12 @@ type Binding struct {
 
 // Env is the context in which a spec expression is translated.
 type Env struct {
-	g       *Gen
-	pkg     string
-	vars    map[string]Binding
-	st      *State
-	old     *State
-	resolve func(name string) (Term, Ty, bool)
+	g          *Gen
+	pkg        string
+	vars       map[string]Binding
+	st         *State
+	old        *State
+	resolve    func(name string) (Term, Ty, bool)
 	macroDepth int
 	freshFloor string
 }
